@@ -60,7 +60,7 @@ class style:
 
 def render_location(text, pos, endpos, lineno, indent, strip, out):
     length = endpos - pos
-    lines = text.splitlines(True)
+    lines = text.splitlines(True) or ['']
     for line in lines[:lineno]:
         pos -= len(line)
         if strip and not line.rstrip():
